@@ -230,7 +230,7 @@ def locate (env : Env) (o : Options) (e : RimEvent) : Res :=
     | none => { out := .err "varloc" }
     | some (guid, name) =>
       match o.reader with
-      | none => { out := .panic "Locate/nil-reader" }
+      | none => { out := .err "locatereadernil" }
       | some root => readVariable env root guid name
   else { out := .err "unsupported" }
 
